@@ -200,7 +200,8 @@ CHECKS = {
                 "uninterrupted reference run (model-checked, real main.rs bootstrap, fake bitcoind over TCP) records every hook point each teosd process hits and every "
                 "bitcoind request it makes; faults = abort() of the process at its k-th hook point (TEOS_VERIF_ABORT_AT: before/after each durable write and explicit "
                 "commit - a real process death, sqlite journal left as is) and SIGKILL when its j-th bitcoind request arrives (first / last of the bootstrap's cache "
-                "downloads and every request after them); teosd is then started again on the same data directory. Histories: lifecycle (completion / expiry run-out), "
+                "downloads and every request after them), a third of them once more with the history's next blocks mined while teosd is down; teosd is then started again "
+                "on the same data directory. Histories: lifecycle (completion / expiry run-out), "
                 "scripted bootstrap situations (backlog mined while down, restart before the first block, late appointment), short generated ones.",
         "assumptions": E1_ASSUME[:2] + [
             "e1c: process death is simulated by unwinding and dropping every tower object in-process; e3c: real process death (abort / SIGKILL) of the real binary, the page cache survives (no power-loss / torn-page semantics)",
